@@ -51,6 +51,7 @@ var UtxoValidationRules = []common.UtxoValidationRuleFunc{
 	UtxoValidateWrongNetworkWithdrawal,
 	UtxoValidateMaxTxSizeUtxo,
 	UtxoValidateExUnitsTooBigUtxo,
+	UtxoValidateTooManyCollateralInputs,
 	UtxoValidateNativeScripts,
 	UtxoValidateExtraneousRedeemers,
 	UtxoValidatePlutusScripts,
@@ -448,6 +449,28 @@ func UtxoValidateNoCollateralInputs(
 		return nil
 	}
 	return NoCollateralInputsError{}
+}
+
+// UtxoValidateTooManyCollateralInputs ensures that the number of collateral inputs
+// does not exceed the maximum specified via protocol parameters
+func UtxoValidateTooManyCollateralInputs(
+	tx common.Transaction,
+	slot uint64,
+	ls common.LedgerState,
+	pp common.ProtocolParameters,
+) error {
+	tmpPparams, ok := pp.(*AlonzoProtocolParameters)
+	if !ok {
+		return errors.New("pparams are not expected type")
+	}
+	collateralCount := uint(len(tx.Collateral()))
+	if collateralCount <= tmpPparams.MaxCollateralInputs {
+		return nil
+	}
+	return TooManyCollateralInputsError{
+		Provided: collateralCount,
+		Max:      tmpPparams.MaxCollateralInputs,
+	}
 }
 
 func UtxoValidateBadInputsUtxo(
